@@ -23,10 +23,10 @@ func init() {
 		RunsThorough: 300000,
 		Real:         []string{"provider/auth manager (Save, Del, Flush, dirty lists, table lock)", "provider/route routetable (Save, Del, Flush)", "JSON providers + utils.EncodeJSONFile on the simulated disk"},
 		Stub:         []string{"disk = simfs (in-memory; every file-system operation is a schedule point here)", "the API handlers are bypassed: an editor task calls the managers directly, a second task flushes the way the periodic job and Service.Close do"},
-		Rule: "one run = one or two editor tasks (two administrators at once) performing 2-7 saves/deletes of users and routes while a flusher task calls auth.Flush and route.Flush 1-4 times, every manager call and every file-system operation a schedule point; " +
+		Rule: "one run = one or two editor tasks (two administrators at once) performing 2-7 saves/deletes of users and routes while one or two flusher tasks (the periodic job and the shutdown flush may overlap) call auth.Flush and route.Flush 1-4 times each, every manager call and every file-system operation a schedule point; " +
 			"afterwards every key is listed at most once and is present/absent (routes: with the URL) as the last operations of the editors on it require; then both tables are flushed once more with nothing else running, the server is restarted and must load exactly the tables that were in memory. distinct = decision-sequence hash; non-trivial = at least one pre-emption",
 		Assumptions:    []string{"no disk faults in this family (crash points and I/O errors are enumerated by C18/persist)"},
-		RequiredProbes: []string{"c18c.edit-during-flush", "c18c.restart-checked", "c18c.two-editors"},
+		RequiredProbes: []string{"c18c.edit-during-flush", "c18c.restart-checked", "c18c.two-editors", "c18c.two-flushers"},
 	})
 }
 
@@ -96,19 +96,28 @@ func buildC18Conc(tier string) sim.Scenario {
 				}
 			})
 		}
-		w.Go("flusher", func() {
-			defer wg.Done()
-			for i := 0; i < nFlush; i++ {
-				w.Y("flusher.next")
-				flushing++
-				eu, er := auth.Flush(), route.Flush()
-				flushing--
-				if eu != nil || er != nil {
-					w.Fail("C18/flush-error", "flush failed without an injected fault: %v %v", eu, er)
-					return
-				}
+		// the periodic job may still be writing when the shutdown flush starts: up to two flushes in flight
+		nFlushers := 1 + tp.Choose(2)
+		wg.Add(nFlushers - 1)
+		for fl := 0; fl < nFlushers; fl++ {
+			fl := fl
+			if fl > 0 {
+				w.Probe("c18c.two-flushers")
 			}
-		})
+			w.Go(fmt.Sprintf("flusher%d", fl), func() {
+				defer wg.Done()
+				for i := 0; i < nFlush; i++ {
+					w.Y("flusher.next")
+					flushing++
+					eu, er := auth.Flush(), route.Flush()
+					flushing--
+					if eu != nil || er != nil {
+						w.Fail("C18/flush-error", "flush failed without an injected fault: %v %v", eu, er)
+						return
+					}
+				}
+			})
+		}
 		wg.Wait()
 		if w.Failed() {
 			return
